@@ -1,7 +1,7 @@
 (* C02 — lemmas about the schedule / clock / bucket-lifecycle model (Model/Exposure.v).
    [steps_telescope] is exported for C17. *)
 From Coq Require Import QArith ZArith List Bool Lia Lqa.
-From PyxelV Require Import Model.Exposure.
+From PyxelV Require Import Model.Exposure Proofs.ExposureEmpty.
 Import ListNotations.
 Open Scope Q_scope.
 
@@ -299,38 +299,68 @@ Section Loop.
   Lemma table_facts :
     bmem Scene (e_always E) = true /\ bmem Photon (e_always E) = true /\ bmem Charge (e_always E) = true
     /\ bmem Signal (e_always E) = true /\ bmem Image (e_always E) = true
-    /\ bmem Pixel (e_always E) = false /\ bmem Pixel (e_if_reset E) = true.
+    /\ bmem Pixel (e_always E) = false /\ bmem Pixel (e_if_reset E) = true
+    /\ forall b, cprog_ok b (e_prog E b) = true.
   Proof.
     pose proof HE as H. unfold empty_table_ok in H. simpl in H.
-    rewrite !andb_true_iff, negb_true_iff in H. intuition.
+    rewrite !andb_true_iff, negb_true_iff in H.
+    destruct H as [[[[[[[H1 [H2 [H3 [H4 [H5 _]]]]] H6] H7] [P1 [P2 [P3 [P4 [P5 [P6 _]]]]]]] _] _] _].
+    repeat split; try assumption. intros b. destruct b; assumption.
+  Qed.
+
+  (* how the run loop uses Detector.empty: one full reset before the first step, `is destructive` per step *)
+  Lemma loop_facts : e_init_reset E = true /\ forall b, loop_reset (e_loop_reset E) b = negb b.
+  Proof.
+    pose proof HE as H. unfold empty_table_ok in H. rewrite !andb_true_iff in H.
+    destruct H as [[[_ H1] H2] _]. split; [exact H1|].
+    intros b. destruct (e_loop_reset E); try discriminate H2. reflexivity.
+  Qed.
+
+  (* emptying one container (when Detector.empty reaches it): all of its pieces are re-initialised, no other
+     piece changes — from the regenerated program of its empty() *)
+  Lemma getp_empty_bucket : forall reset d b p,
+    getp p (empty_bucket A zero E reset d b)
+    = if emptied E reset b && bucket_eqb (owner p) b then cleared A zero p else getp p d.
+  Proof.
+    intros reset d b p. unfold empty_bucket. destruct (emptied E reset b); [|reflexivity].
+    destruct table_facts as [_ [_ [_ [_ [_ [_ [_ HP]]]]]]].
+    rewrite (run_cprog_ok A zero b (e_prog E b) (HP b)). reflexivity.
   Qed.
 
   Lemma det_empty_ok : forall reset d,
     det_empty A zero E reset d =
-    {| scene := None; photon := None; charge := None;
+    {| scene := None; photon := None; charge := None; cframe := None;
        pixel := if reset then Some zero else pixel d; signal := None; image := None |}.
   Proof.
-    intros reset d. destruct table_facts as [H1 [H2 [H3 [H4 [H5 [H6 H7]]]]]].
-    unfold det_empty, clr. rewrite H1, H2, H3, H4, H5, H6, H7. simpl.
-    destruct reset; reflexivity.
+    intros reset d. destruct table_facts as [H1 [H2 [H3 [H4 [H5 [H6 [H7 _]]]]]]].
+    apply det_ext. intros p. unfold det_empty, all_buckets. cbn [fold_left].
+    rewrite !getp_empty_bucket. unfold emptied. rewrite H1, H2, H3, H4, H5, H6, H7.
+    destruct p, reset; reflexivity.
   Qed.
+
+  Lemma pixel_extract : forall d, pixel (det_extract A E d) = pixel d.
+  Proof. intros d. unfold det_extract. destruct (e_read_stores E), (cframe d); reflexivity. Qed.
 
   Lemma loop_begins : forall tss i d prev,
     det_empty A zero E (negb nd) d = spec_begin A zero nd prev ->
     begins_ok prev (loop i tss d).
   Proof.
+    destruct loop_facts as [_ HL].
     induction tss as [|[t st] tss IH]; intros i d prev H; [exact I|].
-    simpl. split; [exact H|].
-    apply IH. rewrite det_empty_ok. unfold spec_begin. destruct nd; reflexivity.
+    simpl. rewrite HL. split; [exact H|].
+    apply IH. rewrite det_empty_ok. unfold spec_begin. rewrite pixel_extract. destruct nd; reflexivity.
   Qed.
 
   Lemma begin_run_state : forall d0,
-    det_empty A zero E (negb nd) (det_empty A zero E true d0) = spec_begin A zero nd None.
-  Proof. intros d0. rewrite !det_empty_ok. unfold spec_begin. simpl. destruct nd; reflexivity. Qed.
+    det_empty A zero E (negb nd) (det_init A zero E d0) = spec_begin A zero nd None.
+  Proof.
+    intros d0. destruct loop_facts as [HI _]. unfold det_init. rewrite HI.
+    rewrite !det_empty_ok. unfold spec_begin. simpl. destruct nd; reflexivity.
+  Qed.
 
   (* the reset at the start of the run forgets everything *)
-  Lemma begin_run_forgets : forall d0 d0', det_empty A zero E true d0 = det_empty A zero E true d0'.
-  Proof. intros. rewrite !det_empty_ok. reflexivity. Qed.
+  Lemma begin_run_forgets : forall d0 d0', det_init A zero E d0 = det_init A zero E d0'.
+  Proof. intros. destruct loop_facts as [HI _]. unfold det_init. rewrite HI, !det_empty_ok. reflexivity. Qed.
 
   Lemma begins_ok_nth : forall os prev, begins_ok prev os ->
     forall i o, nth_error os i = Some o ->
@@ -356,7 +386,7 @@ Section Runs.
 
   Definition trace_of (ro : readout) (ts : list tv) (prog : program A) (d0 : det A) : list (observation A) :=
     run_loop A zero E prog (r_nd ro) (r_start ro) (Z.of_nat (length ts)) 0
-             (combine ts (steps (r_start ro) ts)) (det_empty A zero E true d0).
+             (combine ts (steps (r_start ro) ts)) (det_init A zero E d0).
 
   Lemma run_valid : forall ro prog d0 ts,
     r_times ro = R1 ts -> ro_valid ro ->
@@ -611,6 +641,7 @@ Section Statements.
       scenario A zero G E f r s nd ops prog d0 = Ran trace
       /\ forall i o, nth_error trace i = Some o ->
            scene (o_begin o) = None /\ photon (o_begin o) = None /\ charge (o_begin o) = None
+           /\ cframe (o_begin o) = None
            /\ signal (o_begin o) = None /\ image (o_begin o) = None
            /\ pixel (o_begin o) =
               match i with
